@@ -802,8 +802,18 @@ def _deserialize_graph(
     # Create values for initializers
     initializer_tensors = [deserialize_tensor(tensor) for tensor in proto.initializer]
     initializer_values = []
+    # A repeated initializer name is invalid; the last tensor of a name wins as a whole. Attaching a
+    # later tensor to the value built from an earlier one would leave type/shape and const_value out of
+    # sync (and a later tensor with an unreadable dtype would only fail after a round trip).
+    last_index_of_name = {tensor.name: i for i, tensor in enumerate(initializer_tensors)}
     for i, tensor in enumerate(initializer_tensors):
         initializer_name = tensor.name
+        if initializer_name and last_index_of_name[initializer_name] != i:
+            logger.warning(
+                "Initializer name '%s' is repeated. Only the last initializer with this name is used.",
+                initializer_name,
+            )
+            continue
         if not initializer_name:
             logger.warning(
                 "Initializer tensor must have a name but the %s-th initializer does not. Skipping this initializer.",
